@@ -29,7 +29,9 @@ type World struct {
 	mode    string
 	sent    []*ledger.Transaction
 	// signatures the host has verified (admitted transactions), by public key
-	goodSigs map[string][][2]string // (signature, reference)
+	goodSigs  map[string][][2]string // (signature, reference)
+	raceFirst bool
+	setupLost bool // wallet suites: the set-up payment was admitted but not included
 }
 
 func pickSettings(r *Rng) *Settings {
@@ -73,7 +75,7 @@ func (w *World) next() int64 { return w.now + w.set.Interval }
 // honest peer serving a real node's chain through the real paging
 func honestPeer(target string, n *Node) *Peer {
 	return &Peer{Target: target, Serve: func(h uint64) ([]byte, error) {
-		return json.Marshal(n.Chain.Blocks(h))
+		return n.ServedBlocksBytes(h) // through the node's own "blocks" handler
 	}}
 }
 
@@ -341,6 +343,11 @@ func (w *World) genTx(n *Node) (*ledger.Transaction, string) {
 	}
 	y1 := r.Chance(1, 4)
 	p.outs = []*JOutput{{rcpt.Addr, y1, amount}}
+	if r.Chance(1, 6) {
+		// a zero-valued plain output in front (legal in a transaction with several outputs): it is
+		// never listed as spendable, the outputs after it keep their indexes
+		p.outs = []*JOutput{{rcpt.Addr, false, 0}, {rcpt.Addr, y1, amount}}
+	}
 	if rest > 0 || r.Chance(1, 2) {
 		p.outs = append(p.outs, &JOutput{first.owner.Addr, (!y1 || first.owner != rcpt) && r.Chance(1, 4), rest})
 	}
@@ -585,7 +592,9 @@ func (w *World) run(steps int) {
 	}
 	// half of the histories start by registering several addresses (yielding outputs to three
 	// wallets), so that registry refreshes produce blocks with 2 or more pending removals
-	if w.mode != "honest" && r.Chance(1, 2) {
+	registerThree := r.Chance(1, 2)
+	w.raceFirst = !registerThree && r.Chance(1, 2)
+	if w.mode != "honest" && registerThree {
 		if conf := w.confirmed(w.host, w.wallets[0]); len(conf) > 0 && conf[0].value > 10*w.set.Fee+100 {
 			share := (conf[0].value - w.set.Fee) / 4
 			outs := []*JOutput{{w.wallets[1].Addr, true, share}, {w.wallets[2].Addr, true, share}, {w.wallets[3].Addr, true, share}, {w.wallets[0].Addr, false, share}}
@@ -596,6 +605,26 @@ func (w *World) run(steps int) {
 				h.Pool.AddTransaction(tx, "x", "y")
 				h.Log.Take()
 			}
+		}
+	}
+	if w.mode != "honest" && w.raceFirst {
+		// plain outputs for several wallets first, then a pooled transaction that an adopted block
+		// makes unproducible (yieldRace)
+		if conf := w.confirmed(w.host, w.wallets[0]); len(conf) > 0 && conf[0].value > 100*w.set.Fee+1000 {
+			share := (conf[0].value - w.set.Fee) / 5
+			var outs []*JOutput
+			for j := 0; j < 5; j++ {
+				outs = append(outs, &JOutput{w.wallets[j].Addr, false, share})
+			}
+			tx := w.build(&txPlan{ins: []spendable{conf[0]}, outs: outs, ts: w.now})
+			w.stats.Count("admit/split-five=" + w.rec.Admit(tx))
+			for _, h := range w.helpers {
+				h.Pool.AddTransaction(tx, "x", "y")
+				h.Log.Take()
+			}
+			w.hostTick()
+			w.hostTick()
+			w.yieldRace()
 		}
 	}
 	for s := 0; s < steps; s++ {
@@ -713,8 +742,10 @@ func (w *World) run(steps int) {
 					helperSync(h, w.now, []*Peer{honestPeer("10.0.0.1:10600", w.host)})
 				}
 			}
-		case k < 94 && w.mode != "honest": // income juggling: two admitted transactions, only one order of which can be produced
+		case k < 88 && w.mode != "honest": // income juggling: two admitted transactions, only one order of which can be produced
 			w.yieldSwap()
+		case k < 94 && w.mode != "honest": // a pooled transaction that an adopted block makes unproducible
+			w.yieldRace()
 		default: // registry refresh
 			ans := map[string]int{}
 			for _, wl := range w.wallets {
@@ -972,5 +1003,92 @@ func (w *World) noteGoodSigs(tx *ledger.Transaction) {
 	}
 	for _, in := range jt.Inputs {
 		w.goodSigs[in.PublicKey] = append(w.goodSigs[in.PublicKey], [2]string{in.Signature, fmt.Sprintf("%s/%d", in.TransactionId, in.OutputIndex)})
+	}
+}
+
+// yieldRace: the host pools a transaction giving address A a yielding output; a neighbor confirms,
+// in the block the host then adopts, another transaction that also gives A one. Only the
+// production-time replay of the pooled transaction on the working copy (two incomes for one
+// address) can keep it out of the host's next block.
+func (w *World) yieldRace() {
+	host, h := w.host, w.helpers[0]
+	hb, nb := host.AllBlocks(), h.AllBlocks()
+	if len(hb) >= 2 && (len(hb) != len(nb) || blockHashHex(hb[len(hb)-1]) != blockHashHex(nb[len(nb)-1])) {
+		// bring the neighbor onto the host's chain first
+		h = NewNode(w.set, h.Validator)
+		h.Pool.Validate(host.Chain.FirstBlockTimestamp())
+		helperSync(h, w.now, []*Peer{honestPeer("10.0.0.1:10600", host)})
+		w.helpers[0] = h
+		nb = h.AllBlocks()
+	}
+	if len(hb) < 2 || len(hb) != len(nb) || blockHashHex(hb[len(hb)-1]) != blockHashHex(nb[len(nb)-1]) {
+		w.stats.Count("yield-race=not-in-sync")
+		return
+	}
+	busy := w.busyRefs(host)
+	for k, v := range w.busyRefs(h) {
+		busy[k] = v
+	}
+	hasYield := map[string]bool{}
+	var free []spendable
+	for _, wl := range w.wallets {
+		for _, u := range host.Ureg.Utxos(wl.Addr) {
+			if u.IsYielding() {
+				hasYield[wl.Addr] = true
+				continue
+			}
+			v := u.Value(w.next()+w.set.Interval, w.set.HalfLife, w.set.Base, w.set.ILimit)
+			if v > w.set.Fee+2 && !busy[fmt.Sprintf("%s/%d", u.TransactionId(), u.OutputIndex())] {
+				free = append(free, spendable{u.TransactionId(), u.OutputIndex(), v, wl})
+			}
+		}
+	}
+	for _, n := range []*Node{host, h} {
+		for _, l := range [][]*ledger.Transaction{n.Pool.Transactions(), n.Chain.LastBlockTransactions()} {
+			for _, t := range l {
+				for _, o := range t.Outputs() {
+					if o.IsYielding() {
+						hasYield[o.Address()] = true
+					}
+				}
+			}
+		}
+	}
+	var target *Wallet
+	for _, wl := range w.wallets {
+		if !hasYield[wl.Addr] {
+			target = wl
+			break
+		}
+	}
+	if target != nil && len(free) == 1 && free[0].value > 4*w.set.Fee+100 {
+		// one plain output only: split it in two and confirm them (two host ticks)
+		u := free[0]
+		half := (u.value - w.set.Fee) / 2
+		tx := w.build(&txPlan{ins: []spendable{u}, outs: []*JOutput{{u.owner.Addr, false, half}, {w.wallets[w.r.Intn(5)].Addr, false, u.value - w.set.Fee - half - 1}}, ts: w.now})
+		w.stats.Count("yield-race-setup=" + w.rec.Admit(tx))
+		w.hostTick()
+		w.hostTick()
+		return
+	}
+	if target == nil || len(free) < 2 {
+		w.stats.Count("yield-race=unavailable")
+		return
+	}
+	u1, u2 := free[0], free[len(free)-1]
+	tx1 := w.build(&txPlan{ins: []spendable{u1}, outs: []*JOutput{{target.Addr, true, u1.value - w.set.Fee - 1}}, ts: w.now})
+	tx2 := w.build(&txPlan{ins: []spendable{u2}, outs: []*JOutput{{target.Addr, true, u2.value - w.set.Fee - 1}}, ts: w.next()})
+	h.Pool.AddTransaction(tx1, "x", "y")
+	h.Log.Take()
+	res := w.rec.Admit(tx2)
+	w.tickAll()
+	h.Pool.Validate(w.now)
+	h.Log.Take()
+	ur := w.rec.Update(w.now, []*Peer{honestPeer("10.4.0.1:10600", h)})
+	w.tickAll()
+	vr := w.rec.Validate(w.now)
+	w.stats.Count(fmt.Sprintf("yield-race=%s/%s/%s", res, ur[:indexOrLen(ur, ':')], vr[:indexOrLen(vr, ':')]))
+	for _, o := range w.helpers {
+		helperSync(o, w.now, []*Peer{honestPeer("10.0.0.1:10600", host)})
 	}
 }
